@@ -9,7 +9,12 @@ def run(prop, tier, seed, only=None):
     if only:
         names = [n for n in names if n in only]
     d = libcheck.trace_dir(prop)
-    jobs = [(n, ["-m", "harness.lib.wrap_drive", n, tier, str(seed), "c14"], os.path.join(d, f"wrap-c14-{n}-{tier}-{seed}.ndjson"))
+    from harness.lib import sched
+
+    sched_file = os.path.join(d, f"schedules-{tier}-{seed}.json")
+    if not os.path.exists(sched_file):      # HIST: termination schedules enumerated by TLC from MC_AutoReset
+        sched.tlc_schedules(3, 5, 6 if tier == "quick" else 40, seed, sched_file)
+    jobs = [(n, ["-m", "harness.lib.wrap_drive", n, tier, str(seed), "c14", sched_file], os.path.join(d, f"wrap-c14-{n}-{tier}-{seed}.ndjson"))
             for n in names]
     mcs = [("MC_AutoReset", "MC_AutoReset_quick.cfg", 600)]
     if tier == "thorough":
